@@ -18,7 +18,7 @@ def options(cfg, geo, eps):
           "matrix_epsilon": eps, "block_size": geo["block"], "merge": geo["merge"],
           "merge_block": geo["merge_limit"], "ptype": geo["ptype"],
           "exponent_override": geo["override"], "thr": 0.1, "diagonal_epsilon": geo.get("diag_eps", 1e-10),
-          "eigh": geo.get("eigh", False)}
+          "eigh": geo.get("eigh", False), "clip": (0.5 if cfg.get("clip") else None)}
 
 
 def rel(a, b):
@@ -94,7 +94,7 @@ def handle(job):
       for i in range(n):
         s = t + 1
         gacc = [dy(x) for x in st["gacc"]]
-        F = refds.graft_step(cfg["graft"], G[i][t], G[i][:s], gacc[:s], geo.get("diag_eps", 1e-10))
+        F = refds.graft_step(cfg["graft"], G[i][t], G[i][:s], gacc[:s], geo.get("diag_eps", 1e-10), clip=(0.5 if cfg.get("clip") else None))
         F_sym[i][s] = F
         if not cfg["skip"]:
           used = st["used"]
